@@ -32,6 +32,7 @@ func runC05(c *an.Ctx) {
 	ruleR3(c)
 	ruleR4(c)
 	ruleR5(c)
+	ruleR6(c)
 }
 
 func callNamed(in ssa.Instruction, name string) (ssa.CallInstruction, bool) {
@@ -634,4 +635,54 @@ func ruleR5(c *an.Ctx) {
 	inCS("(*runner).WaitLoop", pkgMrjob, "recording the job outcome", func(in ssa.Instruction) bool {
 		return an.CalleeIs(in, p.Func(pkgMrjob, "(*runner).Fail"), p.Func(pkgMrjob, "(*runner).Complete"))
 	}, 2)
+}
+
+// R6: the restart sequence (Reset, then RestartLocalJobs) selects nodes by the cached Node.state.
+// A node that Reset has just re-initialised must therefore carry the state derived from what is now
+// on disk; otherwise it is skipped and its orphaned jobs are never restarted (the resumed pipestance
+// hangs).  Necessary condition, applied only while RestartLocalJobs reads the cached field: every
+// successful return of (*Node).reset is preceded by an assignment of Node.state from getState().
+func ruleR6(c *an.Ctx) {
+	p := c.P
+	stateF := p.Field(pkgCore, "Node", "state")
+	restart := c.NeedFunc(pkgCore, "(*Pipestance).RestartLocalJobs")
+	reset := c.NeedFunc(pkgCore, "(*Node).reset")
+	getState := c.NeedFunc(pkgCore, "(*Node).getState")
+	if stateF == nil || restart == nil || reset == nil || getState == nil {
+		if stateF == nil {
+			c.Undecided("R6", "anchor(Node.state)", token.NoPos, "field not found")
+		}
+		return
+	}
+	readsCached := false
+	an.Instrs(restart, func(in ssa.Instruction) {
+		if fa, ok := in.(*ssa.FieldAddr); ok {
+			if _, f := an.FieldOfAddr(fa); f == stateF {
+				readsCached = true
+			}
+		}
+	})
+	if !readsCached {
+		c.Pass("R6", "state-fresh-after-reset@(*Node).reset", reset.Pos(), "RestartLocalJobs does not read the cached Node.state: nothing to require")
+		return
+	}
+	md := &an.MustDo{Pred: func(in ssa.Instruction) bool {
+		st, ok := in.(*ssa.Store)
+		if !ok {
+			return false
+		}
+		if _, f := an.FieldOfAddr(st.Addr); f != stateF {
+			return false
+		}
+		call, ok := st.Val.(*ssa.Call)
+		return ok && call.Call.StaticCallee() == getState
+	}, Depth: 2}
+	w := an.Query{Fn: reset,
+		Target: func(x ssa.Instruction) bool {
+			r, ok := x.(*ssa.Return)
+			return ok && len(r.Results) == 1 && an.IsNil(an.RetVal(r, 0))
+		},
+		Barrier: func(x ssa.Instruction) bool { return md.Instr(x, 0) }}.Find()
+	c.Check("R6", "state-fresh-after-reset@(*Node).reset", reset.Pos(), w == nil,
+		"RestartLocalJobs picks nodes by the cached Node.state; a successful (*Node).reset must re-derive it (Node.state = getState(), directly or through loadMetadata) or the just-reset node keeps its stale Failed state and its orphaned jobs are never restarted; "+c.WitnessString(w))
 }
